@@ -114,6 +114,29 @@ def dAddAssign (env : Env) (N : Nat) (sub : Bool) (dst a : DCt) : Outcome DCt :=
   withMeta (addCtAssign env dst.ct a.ct) fun m =>
     bind (glweNormalizeAssign N g1) fun g' => .ok ⟨g', m⟩
 
+/-! ## ZNX plaintext addends (`leveled/default/{add,sub}.rs`, `pt_znx.rs`) -/
+
+/-- `vec_znx_rsh_add_into(base2k, k, res.data, 0, pt.data, 0)` / `vec_znx_rsh_sub`: the body column only -/
+def glweRshAcc (N : Nat) (sub : Bool) (k : Nat) (res : GLWE) (pg : Col) : Outcome GLWE :=
+  selfCol (fun ri => if sub then rshSubCol res.base2k k ri pg N else rshAddCol res.base2k k ri pg N) 0 res
+
+/-- `ckks_{add,sub}_pt_vec_znx_assign(dst, pt)`; `pg` = the limbs of the ZNX plaintext (one column).
+Plaintext construction and the radix / alignment checks come first; then the fused right shift by
+`ptShift`, then `glwe_normalize_assign`. -/
+def dAddPtAssign (env : Env) (N : Nat) (sub : Bool) (c : DCt) (pt : Pt) (pg : Col) : Outcome DCt :=
+  withMeta (withPt env pt c.ct (addPtZnxAssign env c.ct pt)) fun m =>
+    bind (glweRshAcc N sub (ptShift c.ct pt) c.g pg) fun g1 =>
+    bind (glweNormalizeAssign N g1) fun g' => .ok ⟨g', m⟩
+
+/-- `ckks_{add,sub}_pt_vec_znx_into(dst, a, pt)`: budget check, aligned copy of `a` (`glwe_lsh`), then the
+in-place form on the copy -/
+def dAddPtInto (env : Env) (N : Nat) (sub : Bool) (dst a : DCt) (pt : Pt) (pg : Col) : Outcome DCt :=
+  withMeta (withPt env pt dst.ct (shiftInto env dst.ct a.ct 0)) fun m1 =>
+    bind (glweLsh N dst.g a.g (unaryShift env dst.ct a.ct 0)) fun g1 =>
+    withMeta (ptAlign env ⟨m1, g1.size⟩ pt) fun m =>
+      bind (glweRshAcc N sub (ptShift ⟨m1, g1.size⟩ pt) g1 pg) fun g2 =>
+      bind (glweNormalizeAssign N g2) fun g' => .ok ⟨g', m⟩
+
 /-! ## straight-line programs over a pool of ciphertexts with data (linear fragment) -/
 
 /-- the operations that have a data path here; `toOp` is the call of the metadata model -/
